@@ -19,4 +19,4 @@ Where it can be observed: {'; '.join(p['anchors'].get('observe_at', []))}
 
 Produce {n} different, independent changes to the project's source (each as its own patch against the current HEAD of your worktree) that each BREAK this property while (a) the project still compiles (`go build ./...`) and (b) its existing test suite still passes (`go test -vet=off -count=1 ./...`, about a minute). Make them realistic — the kind of slip a maintainer could make in a refactoring, a clean-up or an "optimisation" — and make each need something specific to manifest rather than failing on every input: a particular interleaving or ordering, a crash or fault at a particular point, a multi-step sequence of operations, an unusual input or boundary value, or two cooperating edits that each look fine alone. Avoid changes that ordinary use would expose at once. Spread the changes over different parts of the anchored code / different clauses of the property.
 
-For each change i in 1..{n} write into {wt}/out/<i>/: `patch.diff` (output of `git diff` for that change alone, applicable with `git apply` to a clean HEAD), a demonstration (`demo_test.go`: a Go test you place temporarily inside the worktree to run it — or `demo.sh` if the property is observed through the CLI — that FAILS with the change applied and PASSES without it; verify both yourself; a `demo.sh` takes the path of a source tree as $1, builds whatever it needs from that tree into a temp dir, and exits 0 when the behaviour is right and non-zero when the property is violated), and `meta.json` {{"property":"{pid}","summary":...,"needs":"what specific input/sequence/schedule is needed for it to manifest","demo_pkg":"package directory the demo test must be copied into (if a Go test)","demo_run":"the -run regex or the command","files":[...]}}. Put a `go.mod` (`module demos`) into {wt}/out so the repo's own `go test ./...` ignores that directory. After generating each patch restore the worktree to a clean HEAD (`git checkout -- . && git clean -fdq -e out`). Final message: one short paragraph per change (what it does, why it breaks the property, what it needs to manifest) and confirmation that build + tests pass with each and that each demo fails with / passes without the change.""")
+For each change i in 1..{n} write into {wt}/out/<i>/: `patch.diff` (output of `git diff` for that change alone, applicable with `git apply` to a clean HEAD), a demonstration (`demo_test.go`: a Go test you place temporarily inside the worktree to run it — or `demo.sh` if the property is observed through the CLI — that FAILS with the change applied and PASSES without it; verify both yourself; a `demo.sh` takes the path of a source tree as $1, builds whatever it needs from that tree into a temp dir, and exits 0 when the behaviour is right and non-zero when the property is violated), and `meta.json` {{"property":"{pid}","summary":...,"needs":"what specific input/sequence/schedule is needed for it to manifest","demo_pkg":"package directory the demo test must be copied into (if a Go test)","demo_run":"the -run regex or the command","files":[...]}}. Put a `go.mod` (`module demos`) into {wt}/out so the repo's own `go test ./...` ignores that directory. Never use `git stash` (it is shared between worktrees of the same repository). After generating each patch restore the worktree to a clean HEAD (`git checkout -- . && git clean -fdq -e out`). Final message: one short paragraph per change (what it does, why it breaks the property, what it needs to manifest) and confirmation that build + tests pass with each and that each demo fails with / passes without the change.""")
